@@ -65,6 +65,7 @@ impl ModelBatch {
             .with_context(|| format!("cannot start model driver {exe}"))?;
         let mut stdin = child.stdin.take().unwrap();
         let data = reqs.join("\n") + "\n";
+        if let Ok(p) = std::env::var("LLGV_DUMP_REQS") { let _ = std::fs::write(p, &data); }
         let writer = std::thread::spawn(move || {
             let _ = stdin.write_all(data.as_bytes());
         });
